@@ -141,6 +141,11 @@ def check(ctx, build=None):
             stats["skeletons_rejected"] += st.get("rejected", 0)
             if bad and not any(b["kind"] == "correspondence" for b in build.broken):
                 build.broken.append({"kind": "correspondence", "name": "tr: Model.Tr.trStmts vs the structure goose emits", "detail": json.dumps(bad)[:2500]})
+            if bad and bad["what"] == "values differ" and not found:
+                found = True
+                ctx.violation("counterexample", "control flow: native Go and the emitted GooseLang disagree on a skeleton that the control-flow model treats differently from goose",
+                              {"proto": "tr", "seed": ts, "function": bad["function"], "argument": bad.get("argument"), "go_source": bad["go"], "emitted": bad.get("emitted"), "model": bad["model"]},
+                              expected={"go": bad["native_go"]}, observed={"gooselang": bad["gooselang"]})
         # ---- the scoping model against the real translator: emitted tree, native value, interpreter value
         for ts in range(ctx.seed * 40 + 500, ctx.seed * 40 + 500 + (2 if ctx.tier == "quick" else 25)):
             st, bad = scopecorr.run(ts, 30, scratch)
